@@ -7,6 +7,7 @@ package main
 
 import (
 	"fmt"
+	"io/fs"
 	"reflect"
 	"runtime"
 	"sort"
@@ -36,6 +37,7 @@ type scenario struct {
 	over     atomic.Int64 // entries observed with in-flight > N
 	exec     []atomic.Int32
 	entered  []atomic.Bool
+	goRet    []atomic.Bool // Go() has returned for this task
 	finished []atomic.Bool
 	gates    []chan struct{}
 	handled  sync.Mutex
@@ -53,6 +55,7 @@ func newScenario(c *ev.Case, limit int, kinds []int, handler bool) *scenario {
 	n := len(kinds)
 	s.exec = make([]atomic.Int32, n)
 	s.entered = make([]atomic.Bool, n)
+	s.goRet = make([]atomic.Bool, n)
 	s.finished = make([]atomic.Bool, n)
 	s.gates = make([]chan struct{}, n)
 	for i := range s.gates {
@@ -96,13 +99,17 @@ func (s *scenario) task(i int) func() {
 		case kindBlock:
 			<-s.gates[i]
 		case kindPanic:
-			switch i % 3 {
+			switch i % 4 {
 			case 0:
 				panic(panicVal{i})
 			case 1:
 				panic(fmt.Sprintf("task-%d", i))
-			default:
+			case 2:
 				panic(fmt.Errorf("task-%d", i))
+			default:
+				// an error value whose Error method itself panics (nil receiver)
+				var perr *fs.PathError
+				panic(perr)
 			}
 		}
 	}
@@ -147,11 +154,25 @@ func tokens(l *goz.Limiter) (n, c int, ok bool) {
 
 // stuck classifies a wait that did not complete: confirmed slot leak, or inconclusive.
 func (s *scenario) stuck(what string, submitted, wantInside int64) {
+	if o := s.over.Load(); o > 0 {
+		s.c.Failf("bound-exceeded", "%d function entries saw more than %d functions inside (max %d) (%s)", o, s.N, s.maxSeen.Load(), s.describe())
+		return
+	}
 	in1 := s.inside.Load()
 	n1, c1, ok := tokens(s.l)
 	time.Sleep(300 * time.Millisecond)
 	in2 := s.inside.Load()
 	n2, _, _ := tokens(s.l)
+	// a function whose Go() call returned long ago, that never started, while no
+	// function at all is running: nothing can still make it run
+	if in1 == 0 && in2 == 0 {
+		for i := range s.goRet {
+			if i < len(s.entered) && s.goRet[i].Load() && !s.entered[i].Load() {
+				s.c.Failf("lost-task", "%s: function %d was submitted (Go returned) but has not been executed, and no submitted function is running any more (tokens %d/%d): it will never run (%s)", what, i, n2, c1, s.describe())
+				return
+			}
+		}
+	}
 	if ok && n1 == c1 && n2 == c1 && in1 == in2 && in1 < wantInside {
 		s.c.Failf("slot-leak", "%s: all %d tokens are taken while only %d functions are inside (expected %d to get in): a slot was not returned", what, c1, in1, wantInside)
 		return
@@ -198,6 +219,7 @@ func (s *scenario) run(submitters int, fill bool) {
 					return
 				}
 				s.l.Go(s.task(i))
+				s.goRet[i].Store(true)
 				submitted.Add(1)
 			}
 		}()
@@ -256,7 +278,29 @@ func (s *scenario) run(submitters int, fill bool) {
 		return
 	default:
 	}
-	if !c.Guard("Wait", func() { s.l.Wait() }) {
+	waitRet := make(chan any, 1)
+	go func() {
+		defer func() { waitRet <- recover() }()
+		s.l.Wait()
+	}()
+	returned := false
+	var waitPanic any
+	if !waitFor(func() bool {
+		select {
+		case waitPanic = <-waitRet:
+			returned = true
+		default:
+		}
+		return returned
+	}) {
+		s.stuck("Wait() does not return although every gated function was released", int64(n), 0)
+		if !c.Failed() {
+			s.stop = true
+		}
+		return
+	}
+	if waitPanic != nil {
+		c.Failf("panic/Wait", "Limiter.Wait panicked: %v", waitPanic)
 		return
 	}
 	// after Wait: everything finished, exactly once
@@ -284,7 +328,11 @@ func (s *scenario) run(submitters int, fill bool) {
 		var want []string
 		for i, k := range s.kinds {
 			if k == kindPanic {
-				want = append(want, fmt.Sprintf("task-%d", i))
+				if i%4 == 3 {
+					want = append(want, "<nil>") // fmt's rendering of a nil *fs.PathError
+				} else {
+					want = append(want, fmt.Sprintf("task-%d", i))
+				}
 			}
 		}
 		s.handled.Lock()
@@ -490,25 +538,49 @@ func reuseCase(c *ev.Case) {
 		for i := 0; i < nb; i++ {
 			sh = append(sh, kindBlock)
 		}
-		s := &scenario{c: c, limit: limit, N: N, kinds: sh, handler: handler, l: l}
+		// surplus: with the bound tight, one or two more gated functions are submitted
+		// from a helper goroutine; they must not get in before a slot is free
+		timed := rng.Chance(1, 2)
+		E := 0
+		if nb == N && rng.Chance(2, 3) {
+			E = rng.Range(1, 2)
+			if E > N {
+				E = N // all surplus Go() calls must be able to return once the first batch is released
+			}
+			if timed {
+				// after an expired timed Wait the WaitGroup counter must not touch zero
+				// and be raised again at once (see DESIGN 6.3): one surplus function,
+				// admitted while the rest of the batch is still gated
+				E = 1
+				if nb < 2 {
+					E = 0
+				}
+			}
+		}
 		n := len(sh)
-		s.exec = make([]atomic.Int32, n)
-		s.entered = make([]atomic.Bool, n)
-		s.finished = make([]atomic.Bool, n)
-		s.gates = make([]chan struct{}, n)
+		kinds := append(append([]int(nil), sh...), make([]int, E)...)
+		for j := n; j < n+E; j++ {
+			kinds[j] = kindBlock
+		}
+		s := &scenario{c: c, limit: limit, N: N, kinds: kinds, handler: handler, l: l}
+		s.exec = make([]atomic.Int32, n+E)
+		s.entered = make([]atomic.Bool, n+E)
+		s.goRet = make([]atomic.Bool, n+E)
+		s.finished = make([]atomic.Bool, n+E)
+		s.gates = make([]chan struct{}, n+E)
 		for i := range s.gates {
 			s.gates[i] = make(chan struct{})
 		}
-		timed := rng.Chance(1, 2)
 		untimed := round == rounds-1 || rng.Chance(2, 3)
-		desc += fmt.Sprintf("[%d gated+%d other timed=%v wait=%v]", nb, nother, timed, untimed)
-		c.Logf("round %d: %d gated + %d other, timed Wait: %v, untimed Wait: %v", round, nb, nother, timed, untimed)
+		desc += fmt.Sprintf("[%d gated+%d other+%d surplus timed=%v wait=%v]", nb, nother, E, timed, untimed)
+		c.Logf("round %d: %d gated + %d other + %d surplus, timed Wait: %v, untimed Wait: %v", round, nb, nother, E, timed, untimed)
 		okGo := c.Guard("Go", func() {
 			for i := 0; i < n; i++ {
 				if sh[i] == kindPanic {
 					wantHandled++
 				}
 				l.Go(s.task(i))
+				s.goRet[i].Store(true)
 			}
 		})
 		if !okGo {
@@ -524,7 +596,7 @@ func reuseCase(c *ev.Case) {
 		}
 		if !waitFor(allGatedIn) {
 			s.stuck("reuse: waiting for the gated functions of a batch to get in", int64(n), int64(nb))
-			s.drain(make([]bool, n))
+			s.drain(make([]bool, n+E))
 			return
 		}
 		if timed {
@@ -534,21 +606,46 @@ func reuseCase(c *ev.Case) {
 			}
 			c.Add("timed_waits_expired", 1)
 		}
+		extraDone := make(chan struct{})
+		go func() {
+			defer close(extraDone)
+			defer func() { recover() }()
+			for j := n; j < n+E; j++ {
+				l.Go(s.task(j))
+				s.goRet[j].Store(true)
+			}
+		}()
+		if E > 0 {
+			// the bound is tight: give a surplus function that is wrongly admitted the chance to get in
+			for k := 0; k < 50; k++ {
+				runtime.Gosched()
+			}
+			if rng.Bool() {
+				time.Sleep(150 * time.Microsecond)
+			}
+			c.Add("reuse_surplus_submissions", int64(E))
+			if o := s.over.Load(); o > 0 {
+				c.Failf("bound-exceeded", "a surplus function was admitted while %d functions were already inside: %d entries saw more than %d inside (%s)", N, o, N, desc)
+				s.drain(make([]bool, n+E))
+				return
+			}
+		}
 		var early atomic.Int32
 		waitDone := make(chan struct{})
-		if untimed {
+		startWait := func() {
 			go func() {
 				defer close(waitDone)
 				defer func() { recover() }()
 				l.Wait()
-				for i := 0; i < n; i++ {
+				for i := 0; i < n+E; i++ {
 					if !s.finished[i].Load() {
 						early.Store(int32(i) + 1)
 						return
 					}
 				}
 			}()
-			// give a Wait that is going to return early the chance to do so
+			// functions of the batch are still gated: give a Wait that is going to
+			// return early the chance to do so
 			for k := 0; k < 50; k++ {
 				runtime.Gosched()
 			}
@@ -556,11 +653,59 @@ func reuseCase(c *ev.Case) {
 				time.Sleep(100 * time.Microsecond)
 			}
 		}
-		for _, i := range rng.Perm(n) {
-			if sh[i] == kindBlock {
-				close(s.gates[i])
+		if E == 0 && untimed {
+			startWait()
+		}
+		// release the first n; surplus functions are then admitted and their Go() calls return
+		order := rng.Perm(n)
+		released := make([]bool, n+E)
+		if timed && E > 0 {
+			// one slot first, so that the surplus function is admitted while the others still run
+			for _, i := range order {
+				if sh[i] == kindBlock {
+					close(s.gates[i])
+					released[i] = true
+					break
+				}
+			}
+			if !waitFor(func() bool {
+				select {
+				case <-extraDone:
+					return true
+				default:
+					return false
+				}
+			}) {
+				s.stuck("reuse: Go() of a surplus function does not return after a slot became free", int64(n+E), 1)
+				s.drain(released)
+				return
 			}
 		}
+		for _, i := range order {
+			if sh[i] == kindBlock && !released[i] {
+				close(s.gates[i])
+				released[i] = true
+			}
+		}
+		if !waitFor(func() bool {
+			select {
+			case <-extraDone:
+				return true
+			default:
+				return false
+			}
+		}) {
+			s.stuck("reuse: Go() of a surplus function does not return after slots became free", int64(n+E), 1)
+			s.drain(released)
+			return
+		}
+		if E > 0 && untimed {
+			startWait() // every Go() has returned; the surplus functions are still gated
+		}
+		for j := n; j < n+E; j++ {
+			close(s.gates[j])
+		}
+		n += E
 		if untimed {
 			done := func() bool {
 				select {
@@ -604,7 +749,9 @@ func reuseCase(c *ev.Case) {
 		// on the unchanged tree, outside this property's statement: see DESIGN 6).
 		// Wait, by event, until the batch's goroutines are gone.
 		if !waitFor(func() bool { return runtime.NumGoroutine() <= baseGoroutines }) {
-			c.Run().Inconclusive(fmt.Sprintf("%s[%d] reuse: goroutines of the batch did not exit", c.Engine, c.Index))
+			buf := make([]byte, 1<<16)
+			buf = buf[:runtime.Stack(buf, true)]
+			c.Run().Inconclusive(fmt.Sprintf("%s[%d] reuse: goroutines of the batch did not exit (%d > baseline %d; %s)\n%s", c.Engine, c.Index, runtime.NumGoroutine(), baseGoroutines, desc, buf))
 			return
 		}
 		for i := 0; i < n; i++ {
